@@ -3,6 +3,7 @@ package props
 import (
 	"encoding/json"
 	"fmt"
+	"html/template"
 	"math"
 	"reflect"
 	"strings"
@@ -164,7 +165,15 @@ func c20JSONVal(r *core.Rng, d int) interface{} {
 	case 3:
 		return pick(r, []float64{0, 0.5, -2.25, 1e21, 1e-7, 123456789.125, math.MaxFloat64, -math.SmallestNonzeroFloat64})
 	case 4, 5:
-		return pick(r, []string{"", "plain", "<b>", "a&b", "x>y", "  ", "q\"uote", "back\\slash", "é✓", "</script>", "line\nbreak", "tab\t", "\u0000\u001f", "'single'"})
+		sv := pick(r, []string{"", "plain", "<b>", "a&b", "x>y", "  ", "q\"uote", "back\\slash", "é✓", "</script>", "line\nbreak", "tab\t", "\u0000\u001f", "'single'"})
+		switch r.Intn(6) {
+		case 0:
+			// a string by another type name is encoded like a string (what raw() and other helpers hand on)
+			return template.HTML(sv)
+		case 1:
+			return namedStr(sv)
+		}
+		return sv
 	case 6:
 		n := r.Range(0, 3)
 		a := make([]interface{}, n)
@@ -244,6 +253,10 @@ func normJSON(v interface{}) interface{} {
 			out[k] = normJSON(x)
 		}
 		return out
+	case template.HTML:
+		return string(t)
+	case namedStr:
+		return string(t)
 	}
 	return v
 }
